@@ -93,19 +93,19 @@ Proof.
 Qed.
 
 Theorem includes_closed_gen : forall (l : lang_cfg) q omit ts t i,
-  lc_inc_short_idt l = lc_out_short_idt l -> lc_inc_ns_idt l = lc_out_ns_idt l ->
+  lc_inc_short_idt l = lc_out_short_idt l -> lc_inc_ns_idt l = lc_out_ns_idt l -> lc_ext l = lc_out_ext l ->
   closed q ts = true -> In t ts -> In i (include_list l q omit t) ->
   In i (map (punct l) (outputs l ts))
   \/ (omit = false /\ In i (map (punct l) (support_outputs l)))
   \/ In i (lc_std l (direct q t))
   \/ In i (lc_tmpl_inc l omit).
 Proof.
-  intros l q omit ts t i Hs Hn Hc Ht Hi. unfold include_list in Hi.
+  intros l q omit ts t i Hs Hn He Hc Ht Hi. unfold include_list in Hi.
   apply in_app_or in Hi. destruct Hi as [Hi|Hi].
   - left. apply in_map_iff in Hi. destruct Hi as [c [<- Hc']].
     destruct (closed_defined _ _ _ _ Hc Ht Hc') as [d [Hd <-]].
     apply in_map. unfold outputs. apply in_map_iff. exists d. split; auto.
-    unfold out_path, inc_path. rewrite Hs, Hn. reflexivity.
+    unfold out_path, inc_path. rewrite Hs, Hn, He. reflexivity.
   - apply in_app_or in Hi. destruct Hi as [Hi|Hi].
     + right; left. destruct omit; [contradiction|]. split; auto. rewrite <- support_paths_agree. exact Hi.
     + apply in_app_or in Hi. destruct Hi as [Hi|Hi]; [right; right; left; exact Hi|right; right; right; exact Hi].
@@ -162,7 +162,7 @@ Proof. intros l ns _ H. unfold ns_dir. apply map_ext_in. exact H. Qed.
 (* the namespace list of make_path and the directory of the namespace file coincide when the id types agree *)
 Theorem type_file_in_package_dir : forall (l : lang_cfg) t,
   lc_stropping l = true -> lc_out_ns_idt l = lc_dir_idt l ->
-  exists f, make_path (lc_sid l) (lc_stropping l) (lc_out_short_idt l) (lc_out_ns_idt l) (lc_ext l) t
+  exists f, make_path (lc_sid l) (lc_stropping l) (lc_out_short_idt l) (lc_out_ns_idt l) (lc_out_ext l) t
             = ns_dir (lc_sid l) (lc_dir_idt l) (ti_ns t) ++ [f].
 Proof.
   intros l t Hs He. eexists. unfold make_path, ns_dir, sid_if. rewrite Hs, He. reflexivity.
@@ -179,7 +179,7 @@ Theorem py_init_imports_closed_gen : forall (l : lang_cfg) ts d,
   lc_sid l (lc_default_idt l) (versioned (td_id d)) = lc_sid l (lc_out_short_idt l) (versioned (td_id d)) ->
   stem (short_ref (lc_sid l) (lc_stropping l) (lc_default_idt l) (td_id d)) = short_ref (lc_sid l) (lc_stropping l) (lc_default_idt l) (td_id d) ->
   In (posix (map (fun c => c) (removelast (init_import_module l (td_id d)))
-             ++ [last (init_import_module l (td_id d)) [] ++ lc_ext l])) (outputs l ts).
+             ++ [last (init_import_module l (td_id d)) [] ++ lc_out_ext l])) (outputs l ts).
 Proof.
   intros l ts d Hd Hns Hshort Hstem. unfold outputs. apply in_map_iff. exists d. split; [|exact Hd].
   unfold out_path, make_path, init_import_module. f_equal.
@@ -275,3 +275,47 @@ Qed.
 Corollary guards_differ_unless_folded : forall sid st tail t1 t2,
   macrofy sid st (full_name t1) <> macrofy sid st (full_name t2) -> guard sid st tail t1 <> guard sid st tail t2.
 Proof. intros sid st tail t1 t2 H E. apply H. apply (guard_injective_gen sid st tail t1 t2 E). Qed.
+
+(* ---- dec_str is injective (decode it back) ---- *)
+Definition dstep (a c : N) : N := 10 * a + (c - 48).
+
+Lemma dec_fuel_val f : forall n acc, n < 10 ^ N.of_nat f -> fold_left dstep (dec_fuel f n acc) 0 = fold_left dstep acc n.
+Proof.
+  induction f as [|f IH]; intros n acc Hn.
+  - cbn in Hn. assert (n = 0) by lia. subst. reflexivity.
+  - cbn [dec_fuel]. rewrite Nat2N.inj_succ, N.pow_succ_r' in Hn.
+    pose proof (N.div_mod n 10 ltac:(lia)) as Hdm. pose proof (N.mod_upper_bound n 10 ltac:(lia)) as Hm.
+    destruct (n / 10 =? 0) eqn:E.
+    + apply N.eqb_eq in E. cbn [fold_left]. f_equal. unfold dstep. rewrite N.add_comm with (n := 48), N.add_sub. rewrite E in Hdm. lia.
+    + rewrite IH.
+      * cbn [fold_left]. f_equal. unfold dstep. rewrite N.add_comm with (n := 48), N.add_sub. symmetry. exact Hdm.
+      * apply N.div_lt_upper_bound; lia.
+Qed.
+
+Lemma pos_lt_pow2_size p : N.pos p < 2 ^ N.of_nat (Pos.size_nat p).
+Proof.
+  induction p as [p IH|p IH|]; cbn [Pos.size_nat]; rewrite ?Nat2N.inj_succ, ?N.pow_succ_r'; lia.
+Qed.
+
+Lemma dec_str_val n : fold_left dstep (dec_str n) 0 = n.
+Proof.
+  unfold dec_str. rewrite dec_fuel_val; [reflexivity|].
+  rewrite Nat2N.inj_succ, N.pow_succ_r'.
+  assert (H : n < 2 ^ N.of_nat (N.size_nat n)).
+  { destruct n as [|p]; [cbn; lia|]. cbn [N.size_nat]. apply pos_lt_pow2_size. }
+  assert (H2 : 2 ^ N.of_nat (N.size_nat n) <= 10 ^ N.of_nat (N.size_nat n)) by (apply N.pow_le_mono_l; lia).
+  assert (H3 : 0 < 10 ^ N.of_nat (N.size_nat n)) by (apply N.neq_0_lt_0, N.pow_nonzero; lia).
+  lia.
+Qed.
+
+Theorem dec_str_inj a b : dec_str a = dec_str b -> a = b.
+Proof. intros H. rewrite <- (dec_str_val a), <- (dec_str_val b), H. reflexivity. Qed.
+
+(* distinct types (by full name or version) have distinct guards unless the macro-cased full names fold *)
+Theorem guard_injective_full : forall sid st tail t1 t2,
+  guard sid st tail t1 = guard sid st tail t2 ->
+  macrofy sid st (full_name t1) = macrofy sid st (full_name t2) /\ ti_major t1 = ti_major t2 /\ ti_minor t1 = ti_minor t2.
+Proof.
+  intros sid st tail t1 t2 H. destruct (guard_injective_gen sid st tail t1 t2 H) as [A [B C]].
+  repeat split; auto using dec_str_inj.
+Qed.
